@@ -717,9 +717,8 @@ func runC19(ops []string) CaseResult {
 		})
 		if out == "panic" {
 			// inside the property's domain a panic is a failure; outside it is an observation
-			outside := len(leaves) == 0 || f[0] == "verifynil" ||
-				(f[0] == "pathraw" && (atoi(f[1]) < 0 || atoi(f[1]) >= len(leaves)))
-			if outside {
+			// (the same rule as for the comparison with the model: c19Outside)
+			if c19Outside(f, len(leaves), exports) {
 				tags["obs:panic:"+f[0]] = true
 			} else {
 				fail(i, "panic")
